@@ -120,6 +120,14 @@ def ParLoop.Complete (p : ParLoop V E) (m0 : Loc → V) (σ : List (Fin p.n)) : 
 def ParLoop.sequential (p : ParLoop V E) (m0 : Loc → V) : State V E :=
   (List.finRange p.n).foldl (fun st i => (p.body i).exec i.val st) ⟨m0, []⟩
 
+/-- result of iteration `i` run alone on the initial memory -/
+def ParLoop.solo (p : ParLoop V E) (m0 : Loc → V) (i : Fin p.n) : State V E :=
+  (p.body i).exec i.val ⟨m0, []⟩
+
+/-- `∀ i ≠ j, W i ∩ (W j ∪ R j) = ∅` : no location written by one iteration is written or read by another -/
+def ParLoop.RaceFree (p : ParLoop V E) : Prop :=
+  ∀ i j : Fin p.n, i ≠ j → ∀ l, (p.body i).Writes l → ¬ (p.body j).Writes l ∧ ¬ (p.body j).Reads l
+
 /-- sparse matrix assembled from triplets `(row, col, value)`: duplicates are summed -/
 def fromTriplets {K : Type} [Add K] [Zero K] (l : List (Nat × Nat × K)) (r c : Nat) : K :=
   ((l.filter (fun t => t.1 == r && t.2.1 == c)).map (fun t => t.2.2)).foldr (· + ·) 0
